@@ -148,7 +148,7 @@ Qed.
 (** ** C16: one step of a wait in the reading.  On a byte a wait frame consumes (continuing or completing its
     pattern, or skipping a byte that cannot start it), re-offers the byte to the pattern's beginning, or - when the
     pattern is complete - hands the byte to what follows; it never raises.  At end of input it merely fails. *)
-Definition wait_step (noeach : bool) (f : nat) (again : cfg -> rtree) (r0 r : re) (K' : cfg) (s : sym) : rtree :=
+Definition wait_step (noeach : nat) (f : nat) (again : cfg -> rtree) (r0 r : re) (K' : cfg) (s : sym) : rtree :=
   let d := deriv s r in
   if negb (void d) then
     (if nullable d && negb (can_continue d) then consumed noeach f again K' K' None
